@@ -840,6 +840,26 @@ Proof.
   split; vm_compute; reflexivity.
 Qed.
 
+(** * Damaged copies contribute nothing and suppress nothing *)
+
+Theorem damaged_noop h : forall st,
+  deliveries_arr st h = deliveries st (intact_only h) /\
+  fst (run_arr st h) = fst (run st (intact_only h)).
+Proof.
+  induction h as [|a r IH]; intros st; [split; reflexivity|].
+  destruct a as [f|f].
+  - cbn [intact_only]. rewrite deliveries_cons, run_cons_state.
+    unfold deliveries_arr. cbn [run_arr agent_recv_arr].
+    destruct (agent_recv st f) as [st1 ds]. cbn [fst snd].
+    destruct (IH st1) as [H1 H2]. unfold deliveries_arr in H1.
+    destruct (run_arr st1 r) as [st2 dss]. cbn [fst snd concat] in *.
+    rewrite H1. split; [reflexivity|exact H2].
+  - cbn [intact_only]. unfold deliveries_arr. cbn [run_arr agent_recv_arr].
+    destruct (IH st) as [H1 H2]. unfold deliveries_arr in H1.
+    destruct (run_arr st r) as [st2 dss]. cbn [fst snd concat app] in *.
+    split; assumption.
+Qed.
+
 (** * Non-vacuity: concrete inputs satisfying the hypotheses of the theorems above *)
 
 Definition x_k : ident3 := (2, 50, 1).
@@ -910,3 +930,10 @@ Proof. split; reflexivity. Qed.
 Example error_outcome :
   recv_fragment [] (mkFrag x_k 3 0 [] []) = ([], OError).
 Proof. reflexivity. Qed.
+
+Example damaged_noop_nonvacuous :
+  let h := [Damaged x_F0; Intact x_F2; Damaged x_F1; Intact x_F1; Damaged x_F2; Intact x_F0; Damaged x_F0] in
+  intact_only h = [x_F2; x_F1; x_F0] /\
+  deliveries_arr init h = [mkDelivered x_k x_p (f_blocks x_F0)].
+Proof. cbn zeta. split; vm_compute; reflexivity. Qed.
+
